@@ -20,7 +20,8 @@ RULE = ("Every concrete Atomic subclass found by walking __subclasses__ (primiti
         "unrepresentable input must raise or round-trip exactly. Non-trivial: value != class default and (content > 1 octet or "
         "boundary-table value or context number >= 15). Distinct by (class, mode, ctx, octets)."
         " Also: every decoded value is handed on through the copy constructor and must encode to the same octets; every character string is also received in UCS-4, UCS-2 and ISO 8859-1, copied and encoded again; codec-sensitive text (byte-order marks, NUL, line ends, surrounding blanks, combining sequences)."
-        " Vendor-extended enumerations, object identifier and bit string classes defined by the harness.")
+        " Vendor-extended enumerations, object identifier and bit string classes defined by the harness."
+        " Engineering units with a lazily expanded two-level vendor table; bit strings filled by index with truthy values. One reduced copy of a generated shard runs with the library's debug tracing switched on (label tracing-on).")
 ASSUMPTIONS = [
     "bpverif/ref/asn1.py transcribes clause 20.2.2-20.2.14 correctly",
     "Date(year=2155) (alias of the wildcard) and ObjectIdentifier(int >= 2^32) (masked) are outside 'values the type accepts' and are not generated",
